@@ -129,9 +129,10 @@ def snapshot(sm, field):
 
 
 def options(sm):
-    return {"allow": sm.allow_event_without_transition, "rtc": sm._engine._rtc,
+    return {"allow": sm.allow_event_without_transition,
+            "rtc": getattr(getattr(sm, "_engine", None), "_rtc", None),
             "state_field": sm.state_field, "start_value": sm.start_value,
-            "engine": type(sm._engine).__name__}
+            "engine": type(getattr(sm, "_engine", None)).__name__}
 
 
 def run_case(ci, hist, cut, mech, suf_o, suf_c, order):
